@@ -178,7 +178,7 @@ public:
   otel::sdk::common::ExportResult Export(const sdkm::ResourceMetrics &data) noexcept override
   {
     ExportRec r;
-    r.entry    = s_.steps();
+    r.entry    = s_.stamp();
     r.snapshot = static_cast<long>(data.scope_metric_data_.size());
     if (++h_.in_flight > h_.max_in_flight)
       h_.max_in_flight = h_.in_flight;
@@ -189,7 +189,7 @@ public:
     else
       vsched::this_thread::yield();
     --h_.in_flight;
-    r.exit = s_.steps();
+    r.exit = s_.stamp();
     h_.exports.push_back(r);
     bool fail = cfg_.export_fail_every > 0 && (calls_ % cfg_.export_fail_every) == 0;
     return fail ? otel::sdk::common::ExportResult::kFailure : otel::sdk::common::ExportResult::kSuccess;
@@ -201,20 +201,20 @@ public:
   bool ForceFlush(std::chrono::microseconds) noexcept override
   {
     XCall x;
-    x.entry = s_.steps();
+    x.entry = s_.stamp();
     vsched::point();
     if (cfg_.xflush_latency_us > 0)
       vsched::this_thread::sleep_for(std::chrono::microseconds(cfg_.xflush_latency_us));
-    x.exit = s_.steps();
+    x.exit = s_.stamp();
     h_.xflush.push_back(x);
     return cfg_.xflush_result;
   }
   bool Shutdown(std::chrono::microseconds) noexcept override
   {
     XCall x;
-    x.entry = s_.steps();
+    x.entry = s_.stamp();
     vsched::point();
-    x.exit = s_.steps();
+    x.exit = s_.stamp();
     h_.xshutdown.push_back(x);
     return true;
   }
@@ -266,7 +266,7 @@ inline void run_scenario(vh::Case &c, const Cfg &cfg, History &h)
             r.timeout_us = op.arg;
             auto to      = op.arg < 0 ? (std::chrono::microseconds::max)() : std::chrono::microseconds(op.arg);
             r.recorded_at_call = h.recorded;
-            r.call             = s.steps();
+            r.call             = s.stamp();
             if (r.is_flush)
               r.result = reader->ForceFlush(to);
             else
@@ -276,7 +276,7 @@ inline void run_scenario(vh::Case &c, const Cfg &cfg, History &h)
               r.result = reader->Shutdown(to);
               --shutdown_in_progress;
             }
-            r.ret = s.steps();
+            r.ret = s.stamp();
             h.ctl.push_back(r);
             break;
           }
@@ -296,9 +296,9 @@ inline void run_scenario(vh::Case &c, const Cfg &cfg, History &h)
       r.is_flush         = false;
       r.timeout_us       = -1;
       r.recorded_at_call = h.recorded;
-      r.call             = s.steps();
+      r.call             = s.stamp();
       r.result           = reader->Shutdown();
-      r.ret              = s.steps();
+      r.ret              = s.stamp();
       h.ctl.push_back(r);
     }
     reader.reset();
@@ -323,16 +323,12 @@ inline void check_control(vh::Case &c, const Cfg &, const History &h)
     for (auto &e : h.exports)
       if (e.entry > f.call && e.exit < f.ret && e.snapshot >= f.recorded_at_call)
         covered = true;
-    // a flush that raced Shutdown may have been released by the shutdown itself
-    bool raced_shutdown = false;
+    // a flush that raced Shutdown is released by the shutdown itself, but then it may only return
+    // true if a complete collect-and-export cycle for it did run (the reader compares sequence
+    // numbers before returning): no exemption
     for (auto &k : h.ctl)
       if (!k.is_flush && k.call < f.ret)
-        raced_shutdown = true;
-    if (raced_shutdown)
-    {
-      c.tag("flush-raced-shutdown");
-      continue;
-    }
+        c.tag("flush-true-raced-shutdown");
     VH_CHECK(c, covered, "reader ForceFlush (call@" << f.call << ", ret@" << f.ret << ") returned true but no Export "
                                                     << "carrying the " << f.recorded_at_call
                                                     << " measurements recorded before it ran inside that window");
